@@ -618,6 +618,10 @@ def cmp_c16(case, i, m):
         return ("panic", f"ParsePath({case['text']!r}) panicked: {str(i.get('err'))[:150]}")
     if i.get("result") != m.get("result"):
         return ("parse", f"ParsePath({case['text']!r}) = {i.get('result')} but the documented grammar gives {m.get('result')}")
+    want = "REJECT" if m.get("result") == "REJECT" else "ACCEPT"
+    for site, what in (("asKey", "as the key of a property constraint"), ("asComparison", "as the argument of lessThanProperty")):
+        if site in i and i[site] != want:
+            return ("profile-site:" + site, f"the string {case['text']!r} {what}: the profile parser says {i[site]}, but the documented grammar {'rejects' if want == 'REJECT' else 'accepts'} it as a path")
     return None
 
 
